@@ -61,6 +61,8 @@ struct Pair {
     rho_max: Box<dyn Fn(&Array1<f64>) -> f64 + Send + Sync>,
     eval: Box<dyn Fn(f64, f64, &Array1<f64>) -> (Vec<(String, f64, f64)>, Vec<(String, f64, f64)>) + Send + Sync>,
     quick: bool,
+    /// record sweeps: many pairs on a small state lattice
+    small: bool,
 }
 
 fn pair<A: Residual + 'static, B: Residual + 'static>(id: &str, a: Arc<A>, b: Arc<B>, n: usize, tref: f64, band: f64, floor: f64, quick: bool) -> Pair {
@@ -74,6 +76,7 @@ fn pair<A: Residual + 'static, B: Residual + 'static>(id: &str, a: Arc<A>, b: Ar
         rho_max: Box::new(move |x| a2.max_density(Some(&Moles::from_reduced(x.clone()))).unwrap().to_reduced()),
         eval: Box::new(move |t, v, x| (props(&a, t, v, x), props(&b, t, v, x))),
         quick,
+        small: false,
     }
 }
 
@@ -215,6 +218,61 @@ fn pairs() -> Vec<Pair> {
             let rec = PcSaftRecord::new(m, (s3 / m).cbrt(), e / m, mu, None, kap, eab, Some(na), Some(nb), None, None, None, None);
             let direct = Arc::new(PcSaftParameters::new_pure(PureRecord::new(Identifier::default(), mw, rec)).unwrap());
             v.push(pair(&format!("segments-vs-record|{name}"), Arc::new(PcSaft::new(Arc::new(p))), Arc::new(PcSaft::new(direct)), 1, 500.0, 1e-10, 1e-12, name == "1-butanol" || name == "hexane"));
+        }
+    }
+    v.extend(record_sweep());
+    v
+}
+
+/// Functional vs equation of state for EVERY pure record of the shipped PC-SAFT collections and for a synthetic feature lattice
+/// (chain length below / at / above the m = 2 cap of the polar terms x dipole x quadrupole x association x FMT version): the pure
+/// functional has its own copies of the dispersion, polar and association terms, which no hand-picked set of substances covers
+fn record_sweep() -> Vec<Pair> {
+    let mut v = vec![];
+    for file in ["gross2001", "gross2002", "gross2005_fit", "gross2005_literature", "gross2006", "loetgeringlin2018", "eller2022", "rehner2020", "esper2023"] {
+        let Ok(f) = std::fs::File::open(pfile(&format!("pcsaft/{file}.json"))) else { continue };
+        let Ok(recs) = serde_json::from_reader::<_, Vec<PureRecord<PcSaftRecord>>>(std::io::BufReader::new(f)) else { continue };
+        for (k, r) in recs.into_iter().enumerate() {
+            let name = r.identifier.name.clone().unwrap_or_else(|| format!("#{k}"));
+            // lowest lattice temperature 0.7 tref; for association schemes with unequal site counts the two closed forms (equation of
+            // state / functional) lose digits exponentially in eps_AB/kT (see the synthetic schemes above): keep eps_AB/kT <= 9.7
+            let mut tref = 1.2 * r.model_record.epsilon_k * r.model_record.m.sqrt();
+            let mut unequal = false;
+            if let Some(a) = &r.model_record.association_record {
+                if a.na != a.nb {
+                    unequal = true;
+                    if let Some(e) = a.parameters.epsilon_k_ab {
+                        tref = tref.max(e / 9.7 / 0.7);
+                    }
+                }
+            }
+            let Ok(p) = PcSaftParameters::new_pure(r) else { continue };
+            let p = Arc::new(p);
+            for (vn, ver) in [("wb", FMTVersion::WhiteBear), ("kr", FMTVersion::KierlikRosinberg)] {
+                if vn == "kr" && k % 7 != 0 {
+                    continue;
+                }
+                let mut q = pair(&format!("func-vs-eos|record:{file}:{name}:{vn}"), Arc::new(PcSaft::new(p.clone())), Arc::new(PcSaftFunctional::new_full(p.clone(), ver)), 1, tref, if unequal { 1e-8 } else { 1e-10 }, 1e-10, true);
+                q.small = true;
+                v.push(q);
+            }
+        }
+    }
+    for m in [1.0, 1.6, 2.0, 2.6, 4.5] {
+        for mu in [None, Some(2.7)] {
+            for qq in [None, Some(4.4)] {
+                for assoc in [false, true] {
+                    let (kap, eab, na, nb) = if assoc { (Some(0.035), Some(2500.0), Some(1.0), Some(1.0)) } else { (None, None, None, None) };
+                    let rec = PureRecord::new(Identifier::new(None, Some("syn"), None, None, None, None), 50.0, PcSaftRecord::new(m, 3.4, 230.0, mu, qq, kap, eab, na, nb, None, None, None, None));
+                    let Ok(p) = PcSaftParameters::new_pure(rec) else { continue };
+                    let p = Arc::new(p);
+                    for (vn, ver) in [("wb", FMTVersion::WhiteBear), ("kr", FMTVersion::KierlikRosinberg), ("aswb", FMTVersion::AntiSymWhiteBear)] {
+                        let mut q = pair(&format!("func-vs-eos|synthetic:m={m}:mu={}:q={}:assoc={assoc}:{vn}", mu.unwrap_or(0.0), qq.unwrap_or(0.0)), Arc::new(PcSaft::new(p.clone())), Arc::new(PcSaftFunctional::new_full(p.clone(), ver)), 1, 400.0, 1e-10, 1e-10, true);
+                        q.small = true;
+                        v.push(q);
+                    }
+                }
+            }
         }
     }
     v
@@ -368,8 +426,9 @@ pub fn run(ctx: &mut Ctx) {
         // electrolyte wrapper pair needs a neutral composition
         let xsets = if p.id.contains("epcsaft") && p.n == 3 && p.id.starts_with("wrapper/") { vec![arr1(&[0.96, 0.02, 0.02])] } else { xsets };
         for x in xsets {
-            for &tf in &t_factors(tier) {
-                for &eta in &eta_factors(tier) {
+            let (tfs, etas) = if p.small { (vec![0.7, 1.5], vec![1e-3, 0.3, 0.7]) } else { (t_factors(tier), eta_factors(tier)) };
+            for &tf in &tfs {
+                for &eta in &etas {
                     cases.push(Case { pair: p, x: x.clone(), tf, eta });
                 }
             }
